@@ -6,7 +6,9 @@ import Tup.Model.Alloc
   Atomic blocks (all autocommit statements, no explicit transaction anywhere in this part):
   * `getUploadInfo`   2 read statements: `uploadRow` (the row) then `uploadAgo` (COUNT/SUM of later rows)
   * `needsUploading`  `getInfo` (1 read) ; `uploadRow` ; `uploadAgo`   — 3 reads, decision in Python
-  * `markUploaded`    `getInfo` (1 read) ; `markWrite` (1 upsert carrying the description read before)
+  * `markUploaded`    ONE block `BEGIN IMMEDIATE; get_info; upsert; COMMIT` (fix of D18: the description
+                       is read and recorded atomically; an unassigned id returns inside the block,
+                       committing nothing). `markWrite` is the upsert inside it.
   * `cleanupUploads`  1 `DELETE … NOT IN (SELECT … ORDER BY upload_time DESC LIMIT n)`
 -/
 namespace Tup
@@ -54,11 +56,11 @@ def needsUploading (db : Db) (id : Nat) (term : String) (thr : Thresholds) (now 
     | none => .ok true
     | some ui => .ok (ui.desc != info.desc || ui.needsUploading thr now)
 
-/-- the write statement of `mark_uploaded`, with the description read by the preceding `get_info` -/
+/-- the write statement of `mark_uploaded`, with the description read by `get_info` in the same block -/
 def markWrite (db : Db) (id : Nat) (term desc : String) (size time : Nat) : Db :=
   { db with uploads := uupsert db.uploads ⟨id, term, desc, size, time⟩ }
 
-/-- `mark_uploaded(id, terminal, size=…, upload_time=time)` -/
+/-- `mark_uploaded(id, terminal, size=…, upload_time=time)` — one `BEGIN IMMEDIATE … COMMIT` block -/
 def markUploaded (db : Db) (id : Nat) (term : String) (size time : Nat) : Except Err Db :=
   match getInfo db id with
   | .error e => .error e
